@@ -149,7 +149,11 @@ fn cmd_conc(args: &[String]) {
     let n: u64 = args[1].parse().unwrap();
     let scheds: u64 = args[2].parse().unwrap();
     let kinds: Vec<u64> = args[3].split(',').map(|x| x.parse().unwrap()).collect();
-    let only: Option<(u64, u64)> = if args.len() >= 6 { Some((args[4].parse().unwrap(), args[5].parse().unwrap())) } else { None };
+    let only: Option<(u64, u64)> = if args.len() >= 6 && args[4] != "-" { Some((args[4].parse().unwrap(), args[5].parse().unwrap())) } else { None };
+    // optional: write Coq certificates (lin_b evaluations) for the histories of the first runs
+    let coq_out: Option<String> = args.get(6).cloned();
+    let mut coq = String::from("From Flurry Require Import Model.Lin Model.Check.\nImport ListNotations.\nOpen Scope Z_scope.\n");
+    let mut coq_hist = 0usize;
     silence_panics();
     hooks::install();
     let mut rng = types::SplitMix64(seed ^ 0xC0C0);
@@ -196,6 +200,11 @@ fn cmd_conc(args: &[String]) {
                 _ => {}
             }
             fails.extend(check_history(&prog, &r));
+            if coq_out.is_some() && coq_hist < 1500 {
+                let (txt, n) = history_coq(&prog, &r);
+                coq.push_str(&txt);
+                coq_hist += n;
+            }
             fails.extend(check_quiescent(&prog, &r));
             fails.extend(check_resize_events(&r));
             fails.extend(check_iterators(&prog, &r));
@@ -222,9 +231,12 @@ fn cmd_conc(args: &[String]) {
             }
         }
     }
+    if let Some(path) = &coq_out {
+        std::fs::write(path, coq).expect("write coq histories");
+    }
     println!(
         "JSON {}",
-        json!({"runs": runs, "steps": steps, "lock_waits": lock_waits, "parks": parks, "reclaimed_blocks": reclaimed,
+        json!({"coq_histories": coq_hist, "runs": runs, "steps": steps, "lock_waits": lock_waits, "parks": parks, "reclaimed_blocks": reclaimed,
                "resizes": resizes, "resize_helpers": helped, "distinct_nontrivial": nontrivial.len(),
                "distinct_histories": distinct_histories.len(), "verdicts": verdicts, "found": found, "samples": samples})
     );
